@@ -9,7 +9,8 @@
    the value of every name; each operation is the picture of the Go doc comment on lists). *)
 From Coq Require Import ZArith List Permutation.
 Import ListNotations.
-From Mds Require Import Ring.RingModel Ring.RingSpec Ring.RingProofsBase Ring.RingProofsRep Ring.RingProofs.
+From Mds Require Import Ring.RingModel Ring.RingSpec Ring.RingProofsBase Ring.RingProofsRep Ring.RingProofs
+  Ring.RingProofsPictures.
 
 (* Refinement over histories: for every element type, every zero value and EVERY list of
    operations (New, Of, Join, Pop, Next, Prev, At, Peek, Len, Each with a callback stopping at any
@@ -72,3 +73,73 @@ Example C10_ring_partition_ex :
   cycles (a_run_state nat 0 (a_empty nat 0) [OOf [1;2;3]; OOf [4;5]; OJoin (Some 2) (Some 3); OPop (Some 0)])
   = [[0]; [2; 3; 4; 1]].
 Proof. vm_compute. reflexivity. Qed.
+
+(* ---- the documented pictures as single steps ----
+   On a heap represented by an abstract state whose first cycle is listed from the handle r (any
+   representation can be brought to this form: C10_ring_rep_rotate / C10_ring_rep_permute), each
+   operation returns what the Go doc comment says and leaves a heap represented by the documented
+   cycles; [others], all values and the number of elements are unchanged. *)
+
+(* different rings [r A], [s B]  ->  [r s B A]; returns r2 (r itself when r is alone) *)
+Theorem C10_ring_join_different : forall (T : Type) (h : heap T) vals n (r : addr) A (s : addr) B others,
+  Rep T h (mkA ((r :: A) :: (s :: B) :: others) vals n) ->
+  exists h', join (Some r) (Some s) h = (h', Ok (Some (hd r A))) /\
+             Rep T h' (mkA ((r :: s :: B ++ A) :: others) vals n).
+Proof. exact join_different_picture. Qed.
+Print Assumptions C10_ring_join_different.
+
+(* same ring [r x L1 s L2]  ->  [r s L2] and the cut-out [x L1]; returns x *)
+Theorem C10_ring_join_same : forall (T : Type) (h : heap T) vals n (r x : addr) L1 (s : addr) L2 others,
+  Rep T h (mkA ((r :: (x :: L1) ++ s :: L2) :: others) vals n) ->
+  exists h', join (Some r) (Some s) h = (h', Ok (Some x)) /\
+             Rep T h' (mkA ((r :: s :: L2) :: (x :: L1) :: others) vals n).
+Proof. exact join_same_picture. Qed.
+Print Assumptions C10_ring_join_same.
+
+(* s = r or s = r.next: nil, and the heap is untouched *)
+Theorem C10_ring_join_nothing_between : forall (T : Type) (h : heap T) st (r s : addr),
+  Rep T h st -> r < size h -> (s = r \/ nx T h r = Some s) ->
+  join (Some r) (Some s) h = (h, Ok None).
+Proof. exact join_nothing_between_picture. Qed.
+Print Assumptions C10_ring_join_nothing_between.
+
+(* Pop: [r y t] -> [r] and [y t]; returns r *)
+Theorem C10_ring_pop : forall (T : Type) (h : heap T) vals n (r y : addr) t others,
+  Rep T h (mkA ((r :: y :: t) :: others) vals n) ->
+  exists h', pop (Some r) h = (h', Ok (Some r)) /\
+             Rep T h' (mkA ([r] :: (y :: t) :: others) vals n).
+Proof. exact pop_picture. Qed.
+Print Assumptions C10_ring_pop.
+
+(* At/Peek n: the element at offset n of the cycle read from r (backwards for n < 0), none when
+   |n| >= length; Len: the length; Each: the values in cycle order, up to the call on which the
+   callback returns false; Next/Prev: the neighbours.  The heap is unchanged. *)
+Theorem C10_ring_observers : forall (T : Type) (zero : T) (h : heap T) vals n (r : addr) t others k lim,
+  Rep T h (mkA ((r :: t) :: others) vals n) ->
+  at_ (Some r) k h = (h, Ok (offset (r :: t) k)) /\
+  peek T zero (Some r) k h =
+    (h, Ok (match offset (r :: t) k with Some x => (vals x, true) | None => (zero, false) end)) /\
+  len (Some r) h = (h, Ok (Z.of_nat (length (r :: t)))) /\
+  each (Some r) lim h = (h, Ok (map vals (match lim with O => r :: t | _ => firstn lim (r :: t) end))) /\
+  next_of (Some r) h = (h, Ok (Some (hd r t))) /\
+  prev_of (Some r) h = (h, Ok (Some (last t r))).
+Proof. exact observers_picture. Qed.
+Print Assumptions C10_ring_observers.
+
+Theorem C10_ring_rep_rotate : forall (T : Type) (h : heap T) l1 x l2 others vals n,
+  Rep T h (mkA ((l1 ++ x :: l2) :: others) vals n) -> Rep T h (mkA ((x :: l2 ++ l1) :: others) vals n).
+Proof. exact rep_rotate. Qed.
+Print Assumptions C10_ring_rep_rotate.
+
+Theorem C10_ring_rep_permute : forall (T : Type) (h : heap T) cs cs' vals n,
+  Permutation cs cs' -> Rep T h (mkA cs vals n) -> Rep T h (mkA cs' vals n).
+Proof. exact rep_permute. Qed.
+Print Assumptions C10_ring_rep_permute.
+
+(* the hypotheses are satisfiable: the heap built by Of 1 2 3 4; Of 5 6 is represented by the
+   state the reference computes, whose cycles are [[4;5]; [0;3;2;1]] *)
+Example C10_ring_pictures_ex :
+  let ops := [OOf [1;2;3;4]; OOf [5;6]] in
+  cycles (a_run_state nat 0 (a_empty nat 0) ops) = [[4;5]; [0;3;2;1]] /\
+  Rep nat (run_heap nat 0 empty_heap ops) (a_run_state nat 0 (a_empty nat 0) ops).
+Proof. split; [vm_compute; reflexivity|apply C10_ring_wellformed]. Qed.
